@@ -95,9 +95,12 @@ Lemma step_op_spr cfgv st now o :
   end.
 Proof.
   destruct o; cbn [step_op]; try reflexivity.
-  pose proof (run_inner_flags (cfg_of cfgv) st c now (map (fun '(d, it) => (now + d, it)) replies)) as H.
-  unfold run_call. destruct (run_inner _ _ _ _ _) as [[[[res st'] t] s'] tr].
-  unfold flags_of in H. congruence.
+  - pose proof (run_inner_flags (cfg_of cfgv) st c now (map (fun '(d, it) => (now + d, it)) replies)) as H.
+    unfold run_call. destruct (run_inner _ _ _ _ _) as [[[[res st'] t] s'] tr].
+    unfold flags_of in H. congruence.
+  - pose proof (run_inner_flags (cfg_of cfgv) st c now []) as H.
+    unfold run_call. destruct (run_inner _ _ _ _ _) as [[[[res st'] t] s'] tr].
+    destruct (upto_first_send _); [reflexivity|]. unfold flags_of in H. congruence.
 Qed.
 
 Lemma state_after_no_enter ops : forallb (fun o => negb (is_spr_enter o)) ops = true ->
@@ -148,9 +151,12 @@ Lemma step_op_wait cfgv st now o : no_spr_op o = true ->
   let '(_, _, st', _) := step_op cfgv st now o in spr_wait st' = spr_wait st /\ spr_on st' = spr_on st.
 Proof.
   intros Hn. destruct o; cbn [step_op]; try discriminate Hn; try (split; reflexivity).
-  pose proof (run_inner_flags (cfg_of cfgv) st c now (map (fun '(d, it) => (now + d, it)) replies)) as H.
-  unfold run_call. destruct (run_inner _ _ _ _ _) as [[[[res st'] t] s'] tr].
-  unfold flags_of in H. split; congruence.
+  - pose proof (run_inner_flags (cfg_of cfgv) st c now (map (fun '(d, it) => (now + d, it)) replies)) as H.
+    unfold run_call. destruct (run_inner _ _ _ _ _) as [[[[res st'] t] s'] tr].
+    unfold flags_of in H. split; congruence.
+  - pose proof (run_inner_flags (cfg_of cfgv) st c now []) as H.
+    unfold run_call. destruct (run_inner _ _ _ _ _) as [[[[res st'] t] s'] tr].
+    destruct (upto_first_send _); [split; reflexivity|]. unfold flags_of in H. split; congruence.
 Qed.
 
 Lemma state_after_wait ops : forallb no_spr_op ops = true ->
@@ -176,6 +182,30 @@ Proof.
   cbn [state_after step_op].
   destruct (state_after_wait inside Hi c2 (spr_enter (state_after c1 (spr_exit (state_after cfgv st now before)) n1 mid)) n2) as [W2 O2].
   rewrite W2, O2. cbn [spr_enter spr_on spr_wait]. split; [reflexivity|]. rewrite W1. reflexivity.
+Qed.
+
+(* a call whose send() fails after writing: exactly one frame on the wire, nothing after it *)
+Definition is_send (e : ev) : bool := match e with EvS _ => true | _ => false end.
+
+Lemma upto_first_send_shape tr pre : upto_first_send tr = Some pre ->
+  exists l p, pre = l ++ [EvS p] /\ forallb (fun e => negb (is_send e)) l = true.
+Proof.
+  revert pre. induction tr as [|e tl IH]; intros pre H; [discriminate H|].
+  destruct e; cbn [upto_first_send] in H;
+    try (destruct (upto_first_send tl) as [l0|] eqn:E; [|discriminate H]; injection H as <-;
+         destruct (IH l0 eq_refl) as (l & p & -> & Hl); eexists (_ :: l), p; split; [reflexivity|cbn; exact Hl]).
+  injection H as <-. exists [], p. split; reflexivity.
+Qed.
+
+Definition trace_of {A B C D} (x : A * B * C * D * list ev) : list ev := let '(_, _, _, _, tr) := x in tr.
+
+Lemma send_fault_one_frame cfgv st now c code pre :
+  upto_first_send (trace_of (run_call (cfg_of cfgv) st c now [])) = Some pre ->
+  step_op cfgv st now (OCallSendFault c code) = (2 :: code :: 0 :: enc_trace pre ++ [now], cfgv, st, now)
+  /\ exists l p, pre = l ++ [EvS p] /\ forallb (fun e => negb (is_send e)) l = true.
+Proof.
+  cbn [step_op]. destruct (run_call (cfg_of cfgv) st c now []) as [[[[o st'] t] s'] tr]. cbn [trace_of].
+  intros Hp. rewrite Hp. split; [reflexivity|]. exact (upto_first_send_shape tr pre Hp).
 Qed.
 
 (* ---- C10: timing adoption ------------------------------------------------------------------------- *)
@@ -319,3 +349,43 @@ Proof.
   destruct ((level <? 0) || (127 <? level)) eqn:E; [reflexivity|]. cbn [bind ret].
   replace ((level <? 1) || (126 <? level)) with true by lia. reflexivity.
 Qed.
+
+(* ---- non-vacuity: premises are inhabited, results are non-degenerate (closed by computation) ------------------ *)
+(* C10: an accepted session-change reply under the 2020 edition with P2 = 0x0032, P2* = 0x01F4 *)
+Example c10_accepted :
+  dsc_interpret (cfg_of [1;1;1;1;1;1;2020;5000000;1000000;5000000;0;-1;-1;2;-1;0;-1;0;0]) 3
+                (parse_response [80; 3; 0; 50; 1; 244]) = inr [3; 50000; 5000000; 4; 0; 50; 1; 244].
+Proof. vm_compute. reflexivity. Qed.
+
+(* C09_bare_block_not_waiting: a block that waited for an NRC, a call, its exit, another call, then the bare form *)
+Example c09_history :
+  let cfgv := [1;1;1;1;1;1;2020;5000000;1000000;5000000;0;-1;-1;2;-1;0;-1;0;0] in
+  let h := [OSprEnter (Some true); OCall CTesterPresent []; OSprExit; OCall CTesterPresent [(1000, Frame [126; 0])]; OSprEnter None; OCall CTesterPresent []] in
+  let st := state_after cfgv st_init 0 h in spr_on st = true /\ spr_wait st = None.
+Proof. vm_compute. split; reflexivity. Qed.
+
+(* C13: an unlock whose seed reply is valid and non-zero: seed request, one algorithm run, key request *)
+Example c13_unlock :
+  let cfg := cfg_of [1;1;1;1;1;1;2020;5000000;1000000;5000000;0;-1;-1;2;-1;1;-1;0;0] in
+  let '(out, _, _, _, tr) := run_call cfg st_init (CUnlock 3 []) 0 [(10, Frame [103; 3; 17; 34]); (20, Frame [103; 4])] in
+  map (fun e => match e with EvS p => firstn 2 p | _ => [] end) (filter is_send tr) = [[39; 3]; [39; 4]] /\
+  List.length (filter (fun e => match e with EvALGO _ _ _ => true | _ => false end) tr) = 1%nat /\
+  match out with ORet (Some _) => True | _ => False end.
+Proof. vm_compute. repeat split. Qed.
+
+(* C13: an all-zero seed (already unlocked): nothing after the seed request, no algorithm run *)
+Example c13_already_unlocked :
+  let cfg := cfg_of [1;1;1;1;1;1;2020;5000000;1000000;5000000;0;-1;-1;2;-1;1;-1;0;0] in
+  let '(out, _, _, _, tr) := run_call cfg st_init (CUnlock 3 []) 0 [(10, Frame [103; 3; 0; 0])] in
+  filter is_send tr = [EvS [39; 3]] /\ filter (fun e => match e with EvALGO _ _ _ => true | _ => false end) tr = [].
+Proof. vm_compute. repeat split. Qed.
+
+(* C15_stale / C05: two stale frames (arrived before the request), then a pending reply and the answer *)
+Example c15_stale_ignored :
+  let cfg := cfg_of [1;1;1;1;1;1;2020;5000000;1000000;5000000;1;-1;-1;2;-1;0;-1;0;0] in
+  let live := [(100 + 1000, Frame [127; 62; 120]); (100 + 2000, Frame [126; 0])] in
+  let '(o1, _, t1, _, tr1) := run_call cfg st_init CTesterPresent 100 ([(40, Frame [127; 62; 34]); (100, Frame [126; 0])] ++ live) in
+  let '(o2, _, t2, _, tr2) := run_call cfg st_init CTesterPresent 100 live in
+  enc_outcome enc_sdata_resp o1 = enc_outcome enc_sdata_resp o2 /\ t1 = t2 /\ tr1 = tr2 /\ t1 = 2100 /\
+  List.length (filter (fun e => match e with EvCB => true | _ => false end) tr1) = 1%nat.
+Proof. vm_compute. repeat split. Qed.
